@@ -173,7 +173,8 @@ def judge(inp: Any, model: Any, result: Any, measure: list) -> str | None:
     return None
 
 
-def run_compile(n: int, ops: list, measure: list, m: int, edges: list, level: int, opts: dict) -> Any:
+def run_compile(n: int, ops: list, measure: list, m: int, edges: list, level: int, opts: dict,
+                gate_set: Any = None) -> Any:
     """Runs the real bqskit.compile inside the E3 simulator (one worker, baseline schedule)."""
     from bqskit.compiler.compile import compile as bq_compile
     from bqskit.compiler.machine import MachineModel
@@ -183,7 +184,8 @@ def run_compile(n: int, ops: list, measure: list, m: int, edges: list, level: in
     _install_stubs()
     RuntimeTask.task_counter = 0
     inp = build_circuit(n, ops, measure)
-    model = MachineModel(m, CouplingGraph(edges, m))
+    model = MachineModel(m, CouplingGraph(edges, m)) if gate_set is None else \
+        MachineModel(m, CouplingGraph(edges, m), gate_set)
     w = flat_world(Schedule({}, {}), 1, 1, 'detached', 200000)
 
     def script(c: Any) -> Any:
